@@ -116,3 +116,136 @@ def rule_iteration_state(ctx):
     ctx.note(f"{n_bodies} iteration bodies, {n_assign} loop-carried plain assignments")
     ctx.floor("iteration bodies", n_bodies, 100)
     ctx.floor("loop-carried assignments", n_assign, 2)
+
+
+ACC_METHODS = {"push", "extend", "push_value", "push_punct", "insert", "append", "extend_from_slice", "push_str"}
+EMPTY_VALUE = re.compile(r"^(Vec::new\(\)|Default::default\(\)|Punctuated::new\(\)|\w+::default\(\)|vec!\(\)|None|TokenStream::new\(\)|String::new\(\)|HashMap::default\(\)|HashSet::default\(\))$")
+
+
+def _last_member(e):
+    r, ops = A.chain(e)
+    fs = [o[1] for o in ops if o[0] == "f"]
+    if fs:
+        return str(fs[0])
+    if A.kind(r) == "Expr::Path":
+        return A.path_str(r)
+    return None
+
+
+def rule_accumulators(ctx):
+    """ACCUM: a collection that a function fills by `push` / `extend` / `insert` .. is never *overwritten* with a non-empty value in that function: `convs.tys = <the types of this group>` where the other paths do `convs.tys.extend(..)` makes a later `owned(..)` / `ref(..)` group replace the earlier one of the same kind instead of adding to it (a conversion the user listed silently disappears)."""
+    n = 0
+    for rel, f in sorted(ctx.files.items()):
+        if not rel.startswith("impl/src/"):
+            continue
+        for fn in A.functions(f):
+            if fn.block is None:
+                continue
+            acc = {}
+            for mc, _ in A.find(fn.block, "Expr::MethodCall"):
+                if mc["method"]["sym"] in ACC_METHODS:
+                    nm = _last_member(mc["receiver"])
+                    if nm:
+                        acc.setdefault(nm, set()).add(mc["method"]["sym"])
+            n += len(acc)
+            for a, _ in A.find(fn.block, "Expr::Assign"):
+                nm = _last_member(a["left"])
+                if nm not in acc:
+                    continue
+                rhs = A.render(a["right"])
+                ctx.instance(f"accum:{rel}::{fn.qual}:{nm}", sample={"fn": f"{rel}::{fn.qual}", "place": A.render(a["left"]), "assigned": rhs[:80], "filled_by": sorted(acc[nm])})
+                if EMPTY_VALUE.match(rhs):
+                    continue
+                ctx.report(
+                    f"accum:{rel}::{fn.qual}:{nm}",
+                    ctx.where(f, a["left"]),
+                    f"`{fn.qual}` fills `{nm}` by {sorted(acc[nm])} but here overwrites it: `{A.render(a['left'])} = {rhs[:100]}`: what earlier elements (an earlier `owned(..)` / `ref(..)` group, an earlier attribute) contributed is discarded",
+                    {},
+                )
+    ctx.cur.instances += n
+    ctx.floor("accumulated places", n, 40)
+
+
+def rule_loop_exit(ctx):
+    """LOOP-EXIT: a `for` / `while` loop that accumulates into state outside its body (assignment, `push`, `insert`, ..) is left early only through a failure value (`return Err(..)`, `return None`, `?`): `return <anything else>` - e.g. turning a recursive call followed by more iterations into a tail call - silently ignores the remaining elements (attribute parameters written after a `not(..)` group)."""
+    n = 0
+    for rel, f in sorted(ctx.files.items()):
+        if not rel.startswith("impl/src/"):
+            continue
+        for fn in A.functions(f):
+            if fn.block is None:
+                continue
+            for loop, _ in A.find(fn.block, ("Expr::ForLoop", "Expr::While")):
+                body = loop["body"]
+                params = [loop["pat"]] if A.kind(loop) == "Expr::ForLoop" else []
+                inner = _declared(body, params)
+                mutates = False
+                for x, _ps in A.walk(body):
+                    k = A.kind(x)
+                    if k == "Expr::Assign" or (k == "Expr::Binary" and (A.kind(x["op"]) or "").endswith("Assign")):
+                        r = _root(x["left"])
+                        if r and r not in inner:
+                            mutates = True
+                    elif k == "Expr::MethodCall" and x["method"]["sym"] in ACC_METHODS | {"get_or_insert_with", "get_or_insert", "replace"}:
+                        r = _root(x["receiver"])
+                        if r and r not in inner:
+                            mutates = True
+                if not mutates:
+                    continue
+                n += 1
+                desc = (f"for {A.render_pat(loop['pat'])} in {A.render(loop['expr'])[:50]}" if A.kind(loop) == "Expr::ForLoop" else f"while {A.render(loop['cond'])[:50]}")
+                ctx.instance(f"loopexit:{rel}::{fn.qual}:{desc[:40]}", sample={"fn": f"{rel}::{fn.qual}", "loop": desc})
+                for r_, ps in A.find(body, "Expr::Return"):
+                    if any(A.kind(p) == "Expr::Closure" for p in ps):
+                        continue
+                    txt = A.render(r_)
+                    if txt.startswith("return Err(") or txt == "return None":
+                        continue
+                    ctx.report(
+                        f"loopexit:{rel}::{fn.qual}:{A.alpha(txt)[:60]}",
+                        ctx.where(f, r_),
+                        f"`{fn.qual}` leaves its accumulating loop `{desc}` with `{txt[:100]}`, which is not a failure value: the elements after the current one are never processed (e.g. `#[error(not(backtrace), source)]` loses `source`)",
+                        {},
+                    )
+    ctx.floor("accumulating loops", n, 8)
+
+
+FLAGS = ("enabled", "forward", "owned", "ref_", "ref_mut")
+
+
+def _raw_flag_sites(files):
+    out = []
+    for rel, f in sorted(files.items()):
+        for fn in A.functions(f):
+            if fn.block is None or fn.qual == "MetaInfo::into_full":
+                continue
+            for x, _ in A.find(fn.block, "Expr::Field"):
+                m = x["member"]
+                if A.kind(m) != "Member::Named" or m["0"]["sym"] not in FLAGS:
+                    continue
+                b = x["base"]
+                if A.kind(b) == "Expr::Field" and A.kind(b["member"]) == "Member::Named" and b["member"]["0"]["sym"] == "info":
+                    out.append((f, fn, x))
+    return out
+
+
+def rule_raw_flags(ctx):
+    """RAW-FLAG: the five legacy attribute flags are consulted only in their resolved form (`FullMetaInfo.<flag>`: own setting, else inherited default); the raw `Option<bool>` slot (`.info.<flag>`) is read nowhere outside `MetaInfo::into_full`. Testing the slot's *presence* (`.info.forward.is_some()`) takes `not(forward)` - `Some(false)` - for `forward`."""
+    import os
+
+    files = {rel: f for rel, f in ctx.files.items() if rel.startswith("impl/src/")}
+    sites = _raw_flag_sites(files)
+    n = sum(len(A.functions(f)) for f in files.values())
+    ctx.cur.instances += n
+    for f, fn, x in sites:
+        ctx.report(
+            f"rawflag:{f.rel}::{fn.qual}:{A.render(x)}",
+            ctx.where(f, x),
+            f"`{fn.qual}` reads the raw attribute slot `{A.render(x)}` (an `Option<bool>`): whether the parameter was *written* is not its value - `not({x['member']['0']['sym'].rstrip('_')})` stores `Some(false)`; use the resolved `FullMetaInfo` flag",
+            {},
+        )
+    pos = os.path.join(os.path.dirname(os.path.dirname(os.path.dirname(os.path.dirname(os.path.abspath(__file__))))), "rules", "positive", "rawflag.rs")
+    pc = A.load_files([pos])
+    ctx.instance("rawflag:positive-control")
+    if len(_raw_flag_sites(pc)) != 1:
+        ctx.report("rawflag:positive-control", "rules/positive/rawflag.rs", "the positive control is no longer reported", {})
